@@ -181,6 +181,7 @@ func main() {
 
 		registerStress(c, ps)
 		registerStall(c, ps)
+		registerInvBurst(c, ps)
 
 		c.Count("order-fingerprints.distinct(sum over shards)", int64(len(ps.orders)))
 		if want("hs.enum") {
